@@ -276,6 +276,18 @@ def colSpace (depth : Nat) : List (Nat × Nat) :=
 def colTop (lv i : Nat) : Src := if lv = 1 then .tile (2 * i) else .node (lv - 1) (2 * i)
 def colBottom (lv i : Nat) : Src := if lv = 1 then .tile (2 * i + 1) else .node (lv - 1) (2 * i + 1)
 
+/-- output of the leaf task `reduce_in_col(row, col)` / `reduce_in_row(index, column)`:
+        -> ((row % 2) == 0) ? Rtop reduce_col( 1, row / 2, col ) : Rbottom reduce_col( 1, row / 2, col )
+    (`flowA` = Rtop, `flowB` = Rbottom) -/
+def colLeafOut (row : Nat) : Dst := if row % 2 = 0 then .flowA 1 (row / 2) else .flowB 1 (row / 2)
+
+/-- outputs of `reduce_col(level, index, col)` as written (three guarded `->`; the target at
+    `level + 1` lies outside the task space when `level = depth` and is dropped by the runtime) -/
+def colOut (depth lv i : Nat) : List Dst :=
+  (if 0 = i % 2 then [.flowA (lv + 1) (i / 2)] else []) ++
+  (if 1 = i % 2 then [.flowB (lv + 1) (i / 2)] else []) ++
+  (if lv = depth then [.result 0] else [])
+
 /-- leaf tasks (rows) below inner node `(lv, i)`; level 0 is the leaf task itself -/
 def colLeaves : Nat → Nat → List Nat
   | 0, i => [i]
